@@ -145,3 +145,24 @@ def skip_condition(pred: T.Term) -> T.Term:
     while pred[0] == "not":
         pred = pred[1]
     return pred
+
+
+def input_state_builds(model: Model, events) -> List[tuple]:
+    """The places where an InputState is assembled from a window's columns: `InputState.from_outputs(seq, ts_sent, ts_recv,
+    outputs, delay_dist, is_data)` or the constructor it ends in written out, `InputState(seq=, ts_sent=, ts_recv=, data=,
+    delay_dist=)` (which is from_outputs with is_data=True: the payload is taken as it is).  Returns (event, arguments by
+    from_outputs parameter name)."""
+    out = []
+    for e in events:
+        if e.kind != "call":
+            continue
+        if e.name == "rex.base.InputState.from_outputs":
+            out.append((e, model.bind_call("base.InputState.from_outputs", e.args, e.kwargs)))
+        elif e.name == "new:InputState" and not e.func.endswith("InputState.from_outputs") and e.term[0] == "obj":
+            f = dict(e.term[2])
+            b = {k: f[k] for k in ("seq", "ts_sent", "ts_recv", "delay_dist") if k in f}
+            if "data" in f:
+                b["outputs"] = f["data"]
+            b["is_data"] = T.TRUE
+            out.append((e, b))
+    return out
